@@ -118,23 +118,30 @@ fn main() {
     // is installed at that level), pass 2 in the library's default state (no logging). Failures of
     // both passes accumulate in the context; the evidence describes the second pass and records
     // that the first one ran. C20 only drives cargo and is run once.
-    let two_passes = prop != "C20" && std::env::var("VERIF_SINGLE_PASS").is_err();
+    // (C18's worker processes run the preliminary passes themselves)
+    let two_passes = prop != "C20" && prop != "C18" && std::env::var("VERIF_SINGLE_PASS").is_err();
     if two_passes {
-        set_logging(true);
-        // the first pass also runs with the process wall clock moved back to 1986, before any
-        // NEXRAD Level II data: every data timestamp the code sees then lies in its future
-        clock::set_global_now_ms(PASS1_CLOCK_MS);
-        let r1 = std::panic::catch_unwind(|| run(ctx));
-        if r1.is_err() {
-            let p = ESCAPED_PANIC.lock().ok().and_then(|g| g.clone()).unwrap_or_else(|| "<unknown panic>".into());
-            if p.contains("/repo/") {
-                ctx.fail(&format!("panic_outside_guard:{}", panic_class(&p)), || p.clone(), || serde_json::json!({"escaped_panic": p, "logging": "trace"}));
+        for level in preliminary_log_levels(tier) {
+            set_logging_level(level);
+            // the Trace pass also runs with the process wall clock moved back to 1986, before any
+            // NEXRAD Level II data: every data timestamp the code sees then lies in its future
+            if level == log::LevelFilter::Trace {
+                clock::set_global_now_ms(PASS1_CLOCK_MS);
             } else {
-                eprintln!("MACHINERY: harness panic (logging pass): {p}");
-                std::process::exit(3);
+                clock::set_global_offset_ns(0);
             }
+            let r1 = std::panic::catch_unwind(|| run(ctx));
+            if r1.is_err() {
+                let p = ESCAPED_PANIC.lock().ok().and_then(|g| g.clone()).unwrap_or_else(|| "<unknown panic>".into());
+                if p.contains("/repo/") {
+                    ctx.fail(&format!("panic_outside_guard:{}", panic_class(&p)), || p.clone(), || serde_json::json!({"escaped_panic": p, "logging": level.to_string()}));
+                } else {
+                    eprintln!("MACHINERY: harness panic (logging pass {level}): {p}");
+                    std::process::exit(3);
+                }
+            }
+            ctx.mark_pass_boundary(&level.to_string().to_lowercase());
         }
-        ctx.mark_pass_boundary("trace");
     }
     clock::set_global_offset_ns(0);
     set_logging(false);
